@@ -120,6 +120,118 @@ def _maybe_company(rng, plan_actors, ops, max_iters=40, force=False):
     return ops
 
 
+def gen_extreme(rng, prop, run_seed, dims=(1, 1, 2, 3)):
+    """A plan of the "extreme values" run class: one solver on an objective whose values are finite but of magnitude
+    1e150-1e307, or that answers inf / -inf / NaN beyond the level of its first evaluation."""
+    N = rng.choice(dims)
+    lo, up = objectives.gen_box(rng, N)
+    return {"property": prop, "suite": "liveness", "format": 1, "run_seed": run_seed, "N": N, "lower": lo, "upper": up,
+            "objective": objectives.gen_spec(rng, N, lo, up), "scale": rng.choice([1e150, 1e154, 1e155, 1e160, 1e200, 1e300, -1e160, 1e307, 1.0, 1.0]),
+            "offset": rng.choice([0.0, 1.0, -3.0]), "value_type": rng.choice([None, None, "np.float64"]),
+            "params": {"r": G.gen_r(rng), "eps": G.gen_eps(rng, N), "itersLimit": rng.randint(2, 60), "refineSolution": False,
+                       "evolventDensity": rng.choice([10, 10, rng.randint(2, 12)])},
+            "pre": rng.choice([0, 0, rng.randint(1, 5)]), "wall_s": 6,
+            # a barrier objective: beyond the level of its first evaluation it answers with a non-finite number
+            "barrier": rng.choice([None, None, None, "inf", "inf", "-inf", "nan"])}
+
+
+def run_extreme(plan):
+    """Execute an extreme-values plan: Solver on a plain Problem subclass that logs every evaluation, an interval timer as
+    wall watchdog (Solve contains every exception, the watchdog's too: `fired` tells a return from a rescue).  Returns the
+    facts every suite judges its own clause on: the call log, the returned Solution, the search information."""
+    import signal
+    import numpy as np
+    from iOpt.problem import Problem
+    from iOpt.solver import Solver
+    from iOpt.solver_parametrs import SolverParameters
+    f = objectives.build(plan["objective"])
+    k, c, vt = float(plan["scale"]), float(plan["offset"]), plan.get("value_type")
+    calls = []
+    level = []
+
+    class P(Problem):
+        def __init__(self):
+            super().__init__()
+            self.name = "huge"
+            self.dimension = self.numberOfFloatVariables = plan["N"]
+            self.numberOfDisreteVariables = 0
+            self.numberOfObjectives, self.numberOfConstraints = 1, 0
+            self.floatVariableNames = np.array([str(i) for i in range(plan["N"])])
+            self.lowerBoundOfFloatVariables = np.array(plan["lower"], dtype=np.double)
+            self.upperBoundOfFloatVariables = np.array(plan["upper"], dtype=np.double)
+
+        def Calculate(self, point, functionValue):
+            y = [float(v) for v in point.floatVariables]
+            v = k * (f(y) + c)
+            if plan.get("barrier") and calls and f(y) > level[0]:
+                v = float(plan["barrier"])
+            elif not calls:
+                level.append(f(y))
+            calls.append((tuple(y), v))
+            functionValue.value = np.float64(v) if vt == "np.float64" else v
+            return functionValue
+    fired = []
+
+    def on_alarm(signum, frame):
+        fired.append(len(calls))
+        raise core.WatchdogStop("watchdog: Solve did not return within %s s of CPU time" % plan["wall_s"])
+    pr = plan["params"]
+    solver = Solver(P(), SolverParameters(eps=pr["eps"], r=pr["r"], itersLimit=pr["itersLimit"], refineSolution=False,
+                                          evolventDensity=int(pr.get("evolventDensity", 10))))
+    # (the watchdog runs on the process's CPU time, not on the wall clock: a hang inside the library burns CPU, whereas a busy
+    # machine must not turn a slow run into an alarm)
+    old = signal.signal(signal.SIGVTALRM, on_alarm)
+    signal.setitimer(signal.ITIMER_VIRTUAL, float(plan["wall_s"]))
+    raised = None
+    sol = None
+    try:
+        try:
+            if plan.get("pre"):
+                solver.DoGlobalIteration(int(plan["pre"]))
+        except core.WatchdogStop:
+            raise
+        except BaseException as e:       # (a refusal to go on is not a hang; Solve is what the properties speak about)
+            raised = type(e).__name__
+        sol = solver.Solve()
+    except core.WatchdogStop:
+        pass
+    finally:
+        signal.setitimer(signal.ITIMER_VIRTUAL, 0.0)
+        signal.signal(signal.SIGVTALRM, old)
+    facts = {"calls": calls, "fired": fired, "raised_pre": raised, "solution": None, "items": None,
+             "what": "objective values of magnitude %g%s" % (abs(k), " with a %s barrier" % plan["barrier"] if plan.get("barrier") else "")}
+    if sol is not None and not fired:
+        try:
+            bt = sol.bestTrials[0]
+            facts["solution"] = {"point": tuple(float(v) for v in bt.point.floatVariables), "value": float(bt.functionValues[0].value),
+                                 "n_trials": int(sol.numberOfGlobalTrials)}
+        except BaseException as e:
+            facts["solution"] = {"point": None, "value": None, "n_trials": int(getattr(sol, "numberOfGlobalTrials", -1)), "unreadable": repr(e)}
+        items = []
+        try:
+            for it in solver.searchData:
+                lf, rt = it.GetLeft(), it.GetRight()
+                items.append({"x": float(it.GetX()), "y": tuple(float(v) for v in it.GetY().floatVariables), "z": float(it.GetZ()),
+                              "delta": float(it.delta), "left_x": None if lf is None else float(lf.GetX()),
+                              "right_x": None if rt is None else float(rt.GetX()),
+                              "left_back": lf is None or lf.GetRight() is it, "right_back": rt is None or rt.GetLeft() is it})
+            facts["items"] = items
+        except BaseException as e:
+            facts["items"] = repr(e)
+    return facts
+
+
+def extreme_report(prop, plan, facts):
+    rep = Report()
+    rep.probes["extreme_value_runs"] += 1
+    rep.probes["extreme_value_runs_where_the_queue_refused_an_interval"] += int(facts["raised_pre"] is not None)
+    rep.n_ops = 2
+    rep.digest = core.short_hash([(y, repr(v)) for y, v in facts["calls"]] + [bool(facts["fired"])])
+    rep.sig = rep.digest
+    rep.nontrivial = rep.digest if len(facts["calls"]) >= 2 else None
+    return rep
+
+
 class C02(SolverSuite):
     prop = "C02"
     quick_runs = 12000
@@ -245,103 +357,31 @@ class C03(SolverSuite):
         from .oracles import C03Monitor
         return [C03Monitor()]
 
-    # -- bounded liveness on objectives whose values are finite but astronomically large (their squares overflow a double):
-    # "Solve always terminates ... for every objective".  Nothing else is judged here (the characteristics of such a search
-    # are not computable in double precision, so the stop index is not defined); the run is its own small simulation - one
-    # solver, the objective seam counting evaluations, an interval timer as the watchdog - outside the solver world, whose
-    # reference model cannot follow non-finite characteristics.
-    def gen_liveness(self, rng, run_seed):
-        N = rng.choice([1, 1, 2, 3])
-        lo, up = objectives.gen_box(rng, N)
-        return {"property": self.prop, "suite": "liveness", "format": 1, "run_seed": run_seed, "N": N, "lower": lo, "upper": up,
-                "objective": objectives.gen_spec(rng, N, lo, up), "scale": rng.choice([1e150, 1e154, 1e155, 1e160, 1e200, 1e300, -1e160, 1e307, 1.0, 1.0]),
-                "offset": rng.choice([0.0, 1.0, -3.0]), "value_type": rng.choice([None, None, "np.float64"]),
-                "params": {"r": G.gen_r(rng), "eps": G.gen_eps(rng, N), "itersLimit": rng.randint(2, 60), "refineSolution": False},
-                "pre": rng.choice([0, 0, rng.randint(1, 5)]), "wall_s": 6,
-                # a barrier objective: beyond the level of its first evaluation it answers with a non-finite number
-                "barrier": rng.choice([None, None, None, "inf", "inf", "-inf", "nan"])}
-
-    def check_liveness(self, plan):
-        import signal
-        import numpy as np
-        from iOpt.problem import Problem
-        from iOpt.solver import Solver
-        from iOpt.solver_parametrs import SolverParameters
-        rep = Report()
-        f = objectives.build(plan["objective"])
-        k, c, vt = float(plan["scale"]), float(plan["offset"]), plan.get("value_type")
-        calls = []
-        level = []
-
-        class P(Problem):
-            def __init__(self):
-                super().__init__()
-                self.name = "huge"
-                self.dimension = self.numberOfFloatVariables = plan["N"]
-                self.numberOfDisreteVariables = 0
-                self.numberOfObjectives, self.numberOfConstraints = 1, 0
-                self.floatVariableNames = np.array([str(i) for i in range(plan["N"])])
-                self.lowerBoundOfFloatVariables = np.array(plan["lower"], dtype=np.double)
-                self.upperBoundOfFloatVariables = np.array(plan["upper"], dtype=np.double)
-
-            def Calculate(self, point, functionValue):
-                y = [float(v) for v in point.floatVariables]
-                v = k * (f(y) + c)
-                if plan.get("barrier") and calls and f(y) > level[0]:
-                    v = float(plan["barrier"])
-                elif not calls:
-                    level.append(f(y))
-                calls.append((tuple(y), v))
-                functionValue.value = np.float64(v) if vt == "np.float64" else v
-                return functionValue
-        fired = []
-
-        def on_alarm(signum, frame):
-            fired.append(len(calls))
-            raise core.WatchdogStop("wall watchdog: Solve did not return within %s s" % plan["wall_s"])
-        pr = plan["params"]
-        solver = Solver(P(), SolverParameters(eps=pr["eps"], r=pr["r"], itersLimit=pr["itersLimit"], refineSolution=False))
-        old = signal.signal(signal.SIGALRM, on_alarm)
-        signal.setitimer(signal.ITIMER_REAL, float(plan["wall_s"]))
-        raised = None
-        try:
-            try:
-                if plan.get("pre"):
-                    solver.DoGlobalIteration(int(plan["pre"]))
-            except core.WatchdogStop:
-                raise
-            except BaseException as e:       # (a refusal to go on is not a hang; Solve is what the property speaks about)
-                raised = type(e).__name__
-            solver.Solve()
-        except core.WatchdogStop:
-            pass
-        finally:
-            signal.setitimer(signal.ITIMER_REAL, 0.0)
-            signal.signal(signal.SIGALRM, old)
-        if fired:
-            rep.violations.append(core.Violation(self.prop, "no_termination", "objective values of magnitude %g%s: Solve was still running after %s s "
-                                                 "of wall time with %d evaluations made (itersLimit=%d); it only came back because the watchdog "
-                                                 "interrupted it" % (abs(k), " with a %s barrier" % plan["barrier"] if plan.get("barrier") else "",
-                                                                     plan["wall_s"], fired[0], pr["itersLimit"]), "Solve"))
-        elif len(calls) > max(pr["itersLimit"], int(plan.get("pre") or 0)) + 1:
-            rep.violations.append(core.Violation(self.prop, "budget", "objective values of magnitude %g: %d evaluations, itersLimit=%d"
-                                                 % (abs(k), len(calls), pr["itersLimit"]), "Solve"))
-        rep.probes["liveness_runs_on_huge_values"] += 1
-        rep.probes["liveness_runs_where_dogloballteration_refused"] += int(raised is not None)
-        rep.n_ops = 2
-        rep.digest = core.short_hash([(y, repr(v)) for y, v in calls] + [bool(fired)])
-        rep.sig = rep.digest
-        rep.nontrivial = rep.digest if len(calls) >= 2 else None
-        return rep
-
+    # -- bounded liveness on objectives whose values are finite but astronomically large (their squares overflow a double)
+    # or that answer with a non-finite number beyond a level: "Solve always terminates ... for every objective", and what it
+    # reports as the number of trials is the number of evaluations it made.  The run is its own small simulation (run_extreme,
+    # below), outside the solver world, whose reference model cannot follow non-finite characteristics.
     def check(self, plan):
         if plan.get("suite") == "liveness":
-            return self.check_liveness(plan)
+            facts = run_extreme(plan)
+            rep = extreme_report(self.prop, plan, facts)
+            pr = plan["params"]
+            if facts["fired"]:
+                rep.violations.append(core.Violation(self.prop, "no_termination", "%s: Solve was still running after %s s of CPU time with %d "
+                                                     "evaluations made (itersLimit=%d); it only came back because the watchdog interrupted it"
+                                                     % (facts["what"], plan["wall_s"], facts["fired"][0], pr["itersLimit"]), "Solve"))
+            elif len(facts["calls"]) > max(pr["itersLimit"], int(plan.get("pre") or 0)) + 1:
+                rep.violations.append(core.Violation(self.prop, "budget", "%s: %d evaluations, itersLimit=%d"
+                                                     % (facts["what"], len(facts["calls"]), pr["itersLimit"]), "Solve"))
+            elif facts["solution"] is not None and facts["solution"]["n_trials"] != len(facts["calls"]):
+                rep.violations.append(core.Violation(self.prop, "count", "%s: the result reports %d global trials, the objective was evaluated %d times"
+                                                     % (facts["what"], facts["solution"]["n_trials"], len(facts["calls"])), "Solve"))
+            return rep
         return super().check(plan)
 
     def cases(self, rng, tier, run_seed, idx=0):
         if idx % 50 == 7:
-            yield self.gen_liveness(rng, run_seed)
+            yield gen_extreme(rng, self.prop, run_seed)
             return
         yield self.gen_plan(rng, tier, run_seed)
 
@@ -475,6 +515,40 @@ class C04(SolverSuite):
     def monitors(self):
         from .oracles import C04Monitor
         return [C04Monitor()]
+
+    # extreme values (see run_extreme): the reported optimum is an evaluated trial with its value, and no evaluated trial is
+    # smaller - also when the interval of that very trial could not be queued (inf - inf)
+    def cases(self, rng, tier, run_seed, idx=0):
+        if idx % 60 == 9:
+            yield gen_extreme(rng, self.prop, run_seed)
+            return
+        yield self.gen_plan(rng, tier, run_seed)
+
+    def check(self, plan):
+        if plan.get("suite") != "liveness":
+            return super().check(plan)
+        facts = run_extreme(plan)
+        rep = extreme_report(self.prop, plan, facts)
+        sol, calls = facts["solution"], facts["calls"]
+        if sol is None or not calls:
+            rep.inconclusive["extreme_run_without_result"] += 1
+            return rep
+        vals = [v for _, v in calls]
+        if any(v != v for v in vals):
+            rep.inconclusive["extreme_run_with_nan_values"] += 1      # "smallest" is not defined among NaNs
+            return rep
+
+        def bad(clause, msg):
+            rep.violations.append(core.Violation(self.prop, clause, "%s: %s" % (facts["what"], msg), "Solve"))
+        if sol.get("unreadable") or sol["point"] is None:
+            bad("unreadable", "the returned Solution has no readable best trial (%s) after %d evaluations" % (sol.get("unreadable"), len(calls)))
+        elif sol["point"] not in [y for y, _ in calls]:
+            bad("not_evaluated", "reported best point %r is not one of the %d evaluated points" % (sol["point"], len(calls)))
+        elif sol["value"] not in [v for y, v in calls if y == sol["point"]]:
+            bad("value_mismatch", "reported value %r at %r, the objective answered %r there" % (sol["value"], sol["point"], [v for y, v in calls if y == sol["point"]]))
+        elif min(vals) < sol["value"]:
+            bad("not_minimal", "reported best value %r, but an evaluated trial has %r" % (sol["value"], min(vals)))
+        return rep
 
     def gen_plan(self, rng, tier, run_seed):
         L = rng.randint(4, 70) if rng.random() < 0.9 else rng.randint(70, 300)
@@ -621,6 +695,61 @@ class C06(SolverSuite):
         from .oracles import C06Monitor
         return [C06Monitor()]
 
+    # extreme values (see run_extreme): whatever happened to the characteristics, the search information stays the record of
+    # the trials made - every evaluated trial is listed once with its point and value, coordinates increase from 0 to 1, links
+    # and stored lengths are consistent
+    def cases(self, rng, tier, run_seed, idx=0):
+        if idx % 60 == 9:
+            yield gen_extreme(rng, self.prop, run_seed)
+            return
+        yield self.gen_plan(rng, tier, run_seed)
+
+    def check(self, plan):
+        if plan.get("suite") != "liveness":
+            return super().check(plan)
+        facts = run_extreme(plan)
+        rep = extreme_report(self.prop, plan, facts)
+        items, calls, N = facts["items"], facts["calls"], plan["N"]
+        if facts["fired"] or items is None or not calls:
+            rep.inconclusive["extreme_run_without_result"] += 1
+            return rep
+        if len(calls) >= 2 and calls[0][0] == calls[1][0]:
+            # the interval of the very first trial could not be queued: the seeding iteration is started over on the next call
+            # (the library's way of retrying a failed first iteration, see C03) and the first evaluation is not kept
+            rep.inconclusive["extreme_run_first_iteration_repeated"] += 1
+            return rep
+
+        def bad(clause, msg):
+            rep.violations.append(core.Violation(self.prop, clause, "%s: %s" % (facts["what"], msg), "after_solve"))
+        if isinstance(items, str):
+            bad("traversal", "walking the search information raised %s" % items)
+            return rep
+        xs = [it["x"] for it in items]
+        if len(items) != len(calls) + 2:
+            bad("count", "%d items for %d evaluated trials (expected trials + 2)" % (len(items), len(calls)))
+        elif xs[0] != 0.0 or xs[-1] != 1.0 or any(b <= a for a, b in zip(xs, xs[1:])):
+            bad("order", "coordinates are not strictly increasing from 0 to 1: %r" % (xs[:12],))
+        else:
+            same = lambda a, b: a == b or (a != a and b != b)
+            log = list(calls)
+            for i, it in enumerate(items):
+                if i and (it["left_x"] != xs[i - 1] or not it["left_back"]):
+                    bad("links", "item %d at x=%r: its left link does not lead to its predecessor" % (i, it["x"]))
+                    break
+                if i + 1 < len(items) and (it["right_x"] != xs[i + 1] or not it["right_back"]):
+                    bad("links", "item %d at x=%r: its right link does not lead to its successor" % (i, it["x"]))
+                    break
+                if i and it["delta"] != pow(it["x"] - xs[i - 1], 1.0 / N):
+                    bad("delta", "item %d at x=%r stores length %r, (x - x_left)^(1/N) = %r" % (i, it["x"], it["delta"], pow(it["x"] - xs[i - 1], 1.0 / N)))
+                    break
+                if 0 < i < len(items) - 1:
+                    hit = [j for j, (y, v) in enumerate(log) if y == it["y"] and same(v, it["z"])]
+                    if not hit:
+                        bad("fidelity", "item %d at x=%r stores point %r with value %r: no evaluation of the log has them" % (i, it["x"], it["y"], it["z"]))
+                        break
+                    log.pop(hit[0])
+        return rep
+
     def gen_plan(self, rng, tier, run_seed):
         L = rng.randint(4, 60) if rng.random() < 0.9 else rng.randint(60, 200)
         spec = G.gen_actor(rng, max_iters=L, refine=(rng.random() < 0.15), shipped_prob=0.1)
@@ -683,6 +812,30 @@ class C20(SolverSuite):
     def monitors(self):
         from .oracles import C20Monitor
         return [C20Monitor()]
+
+    # extreme values (see run_extreme): every point that crosses the objective seam is a cell centre of the configured grid,
+    # whatever the objective answers there
+    def cases(self, rng, tier, run_seed, idx=0):
+        if idx % 60 == 9:
+            yield gen_extreme(rng, self.prop, run_seed, dims=(2, 2, 3, 4))
+            return
+        yield self.gen_plan(rng, tier, run_seed)
+
+    def check(self, plan):
+        if plan.get("suite") != "liveness":
+            return super().check(plan)
+        facts = run_extreme(plan)
+        rep = extreme_report(self.prop, plan, facts)
+        m = int(plan["params"].get("evolventDensity", 10))
+        for n, (y, v) in enumerate(facts["calls"]):
+            for i, (yi, lo, hi) in enumerate(zip(y, plan["lower"], plan["upper"])):
+                u = (yi - lo) / (hi - lo) * (2 ** m) - 0.5
+                j = round(u)
+                if abs(u - j) > 1e-6 or not (0 <= j < 2 ** m):
+                    rep.violations.append(core.Violation(self.prop, "off_grid", "%s: evaluation #%d coordinate %d = %r is not lower+(j+1/2)*side/2^%d (u=%r)"
+                                                         % (facts["what"], n + 1, i, yi, m, u), "global_trial"))
+                    return rep
+        return rep
 
     def gen_plan(self, rng, tier, run_seed):
         L = rng.randint(10, 60)
